@@ -547,6 +547,11 @@ get_next_token0() {
       // instantiation and call yacc recursively to parse the template
       // parameters.
       CPPDeclaration *decl = ident->find_template(current_scope, global_scope);
+      if (decl != nullptr && decl->get_template_scope() == nullptr) {
+        // A member template of a class template instantiation has lost its
+        // template scope; we cannot instantiate it.
+        decl = nullptr;
+      }
       if (decl != nullptr) {
         if (decl->as_concept() != nullptr) {
           nested_skip_template_instantiation(decl->get_template_scope());
@@ -609,6 +614,10 @@ get_next_token0() {
         // parameters.
         CPPDeclaration *decl =
           ident->find_template(current_scope, global_scope);
+        if (decl != nullptr && decl->get_template_scope() == nullptr) {
+          // See above.
+          decl = nullptr;
+        }
         if (decl != nullptr) {
           if (decl->as_concept() != nullptr) {
             nested_skip_template_instantiation(decl->get_template_scope());
